@@ -852,6 +852,10 @@ func (f *FuncCFG) expandBoolTemp(ft fact, pt Point, depth int) []fact {
 	if as, isAs := f.nodeAt(defs[0].At).(*ast.AssignStmt); isAs && len(as.Lhs) != len(as.Rhs) {
 		rhs = nil // one result of a tuple: only meaningful through a spliced helper (below)
 	}
+	if cl, isCall := rhs.(*ast.CallExpr); isCall && f.regionByCall(cl) == nil && defAt.B == pt.B && defAt.I+1 == pt.I {
+		// `if done := x.Try(k); done`: the test is on the call made by the statement before it
+		return []fact{{cl, ft.Pol}}
+	}
 	if _, isCall := rhs.(*ast.CallExpr); isCall || rhs == nil {
 		// the result of a spliced helper with one return site: the expression it returns there
 		// (`wake := m.release(); ...; if wake` with release computing `wake = a && b` under its lock)
@@ -889,8 +893,21 @@ func (f *FuncCFG) expandBoolTemp(ft fact, pt Point, depth int) []fact {
 		}
 		return true
 	})
-	if hasCall {
+	// the definition is the statement right before the test (`if ok := a.Load() == x && ...; !ok`):
+	// nothing can happen in between, the test is on the expression as just evaluated
+	adjacent := defAt.B == pt.B && defAt.I+1 == pt.I
+	if hasCall && !adjacent {
 		return []fact{ft}
+	}
+	if adjacent {
+		var out []fact
+		for _, sub := range factsOn(rhs, ft.Pol) {
+			out = append(out, f.expandBoolTemp(sub, defAt, depth-1)...)
+		}
+		if len(out) == 0 {
+			return nil
+		}
+		return out
 	}
 	assigns := func(n ast.Node) bool {
 		hit := false
@@ -2798,7 +2815,9 @@ func (f *FuncCFG) MapPath(path string, pt Point) string {
 		}
 		var binds []bind
 		if reg.fd.Recv != nil && len(reg.fd.Recv.List) == 1 && len(reg.fd.Recv.List[0].Names) == 1 {
-			if se, ok := ast.Unparen(reg.call.Fun).(*ast.SelectorExpr); ok {
+			if reg.recvX != nil {
+				binds = append(binds, bind{f.Info.Defs[reg.fd.Recv.List[0].Names[0]], reg.recvX})
+			} else if se, ok := ast.Unparen(reg.call.Fun).(*ast.SelectorExpr); ok {
 				binds = append(binds, bind{f.Info.Defs[reg.fd.Recv.List[0].Names[0]], se.X})
 			}
 		}
@@ -3224,4 +3243,109 @@ func (f *FuncCFG) SameValue(a ast.Expr, apt Point, b ast.Expr, bpt Point) bool {
 		}
 	}
 	return true
+}
+
+
+// LocksHeld computes, on the graph with the helpers spliced in, the mutexes that are certainly held
+// before every node (a must analysis: intersection at joins). Lock paths are given in the frame of
+// the function itself (MapPath), so `t.mutex.Lock()` inside a spliced helper called on the receiver
+// is the receiver's mutex. A deferred unlock in the function itself holds to the exit; a deferred
+// unlock inside a spliced helper releases at that helper's return sites. entry: what the function
+// is entered with (caller-holds helpers).
+func (f *FuncCFG) LocksHeld(entry LockSet) func(pt Point) LockSet {
+	if entry == nil {
+		entry = LockSet{}
+	}
+	// releases at the return sites of helpers that deferred an unlock
+	releaseAt := map[Point][]string{}
+	for _, b := range f.G.Blocks {
+		if !b.Live {
+			continue
+		}
+		for i, nd := range b.Nodes {
+			ds, ok := nd.(*ast.DeferStmt)
+			if !ok {
+				continue
+			}
+			op, path := lockOp(f.Info, ds.Call)
+			if op != "Unlock" && op != "RUnlock" {
+				continue
+			}
+			if reg := f.regionOf[b]; reg != nil {
+				mp := f.MapPath(path, Point{b, i})
+				for _, rt := range reg.rets {
+					releaseAt[rt.pt] = append(releaseAt[rt.pt], mp)
+				}
+			}
+		}
+	}
+	transfer := func(b *cfg.Block, i int, st LockSet) LockSet {
+		for _, path := range releaseAt[Point{b, i}] {
+			st = st.without(path)
+		}
+		es, ok := b.Nodes[i].(*ast.ExprStmt)
+		if !ok {
+			return st
+		}
+		c, ok := ast.Unparen(es.X).(*ast.CallExpr)
+		if !ok {
+			return st
+		}
+		op, path := lockOp(f.Info, c)
+		if op == "" {
+			return st
+		}
+		path = f.MapPath(path, Point{b, i})
+		switch op {
+		case "Lock":
+			return st.with(path, ModeW)
+		case "RLock":
+			return st.with(path, ModeR)
+		case "Unlock", "RUnlock":
+			return st.without(path)
+		}
+		return st
+	}
+	in := map[*cfg.Block]LockSet{}
+	if len(f.G.Blocks) == 0 {
+		return func(Point) LockSet { return LockSet{} }
+	}
+	in[f.G.Blocks[0]] = entry
+	work := []*cfg.Block{f.G.Blocks[0]}
+	for iter := 0; len(work) > 0 && iter < 100000; iter++ {
+		b := work[0]
+		work = work[1:]
+		if !b.Live {
+			continue
+		}
+		st := in[b]
+		for i := range b.Nodes {
+			st = transfer(b, i, st)
+		}
+		// a return point at the very end of a block (index == len(nodes))
+		for _, path := range releaseAt[Point{b, len(b.Nodes)}] {
+			st = st.without(path)
+		}
+		for _, sc := range b.Succs {
+			old, seen := in[sc]
+			ns := st
+			if seen {
+				ns = meet(old, st)
+			}
+			if !seen || !sameSet(ns, old) {
+				in[sc] = ns
+				work = append(work, sc)
+			}
+		}
+	}
+	return func(pt Point) LockSet {
+		st, ok := in[pt.B]
+		if !ok {
+			return LockSet{}
+		}
+		for i := 0; i < pt.I && i < len(pt.B.Nodes); i++ {
+			st = transfer(pt.B, i, st)
+		}
+		return st
+	}
 }
